@@ -1,7 +1,7 @@
 (* P_EvalOrder - proofs for C20: the temp-machine code produced by the model of the code generator
    computes exactly the events, value and variables of the CPython-order reference semantics. *)
 From Coq Require Import List Bool Arith Lia.
-From CyVerif Require Import Model.M_EvalOrder.
+From CyVerif Require Import Model.M_CCallMap Model.M_EvalOrder Proof.P_CCallMap.
 Import ListNotations.
 
 (* ---------- top-level copies of the local recursions of eval / gen ---------- *)
@@ -86,6 +86,13 @@ Lemma eval_EMinMax m o args : eval S vars m (EMinMax o args) =
                 tobool m {| rv := w; rk := None; rev := flat_ev rs ++ ev; rlf := flat_lf rs |}
   end.
 Proof. reflexivity. Qed.
+
+Lemma eval_ECCall m o nreq ndecl recv npos names es : eval S vars m (ECCall o nreq ndecl recv npos names es) =
+  let rr := eval S vars MVal recv in
+  let rs := evals S vars es in
+  let '(v, ev) := opsem S o (rv rr :: map (fun p => nth p (map rv rs) VNone) (ref_slots npos names ndecl 0)) in
+  tobool m {| rv := v; rk := None; rev := rev rr ++ flat_ev rs ++ ev; rlf := rlf rr ++ flat_lf rs |}.
+Proof. reflexivity. Qed.
 End Copies.
 
 Section GenCopies.
@@ -163,6 +170,11 @@ Lemma gen_EMinMax c o args n : gen F c (EMinMax o args) n =
         let '(cs, n3) := gscan o best tb rs n2 in
         finish c (cr ++ c0 ++ [IMove best r0] ++ cs, OTemp best, n3)
   end.
+Proof. reflexivity. Qed.
+
+Lemma gen_ECCall c o nreq ndecl recv npos names es n : gen F c (ECCall o nreq ndecl recv npos names es) n =
+  ccall_code F c o nreq ndecl (gen F CVal recv) npos names (fun p => csimple F (nth p es ENone))
+             (map (gen F CVal) es) n.
 Proof. reflexivity. Qed.
 End GenCopies.
 
@@ -531,6 +543,7 @@ Proof.
   - rewrite eval_EMCall. shape.
   - rewrite eval_EMinMax. cbv zeta. destruct (map rv (evals S vars args)); [shape|].
     destruct (rscan S o v l). shape.
+  - rewrite eval_ECCall. shape.
 Qed.
 
 
@@ -1288,6 +1301,278 @@ Proof.
 Qed.
 
 
+
+(* ---------- calls of C functions: keyword arguments mapped to declared positions ---------- *)
+Definition select (es : list expr) (ps : list nat) : list expr := map (fun p => nth p es ENone) ps.
+
+Lemma nth_gfs es : forall p n,
+  nth p (map (gen F CVal) es) (fun n => ([], ONoneC, n)) n = gen F CVal (nth p es ENone) n.
+Proof. induction es as [|e es IH]; intros [|p] n; simpl; auto. Qed.
+
+Lemma gen_sel_gens es : forall ps n, gen_sel (map (gen F CVal) es) ps n = gens F (select es ps) n.
+Proof.
+  induction ps as [|p ps IH]; intros n; simpl; [reflexivity|].
+  rewrite nth_gfs. destruct (gen F CVal (nth p es ENone) n) as [[c1 r1] n1]. rewrite IH. reflexivity.
+Qed.
+
+Lemma select_ok es ps : Forall gen_ok_at es -> Forall gen_ok_at (select es ps).
+Proof.
+  intros H. unfold select. apply Forall_forall. intros e He. apply in_map_iff in He.
+  destruct He as (p & <- & _). destruct (Nat.lt_ge_cases p (length es)) as [L|L].
+  - rewrite Forall_forall in H. apply H. apply nth_In. auto.
+  - rewrite nth_overflow by auto. apply gen_none.
+Qed.
+
+Lemma evals_map vars es : evals S vars es = map (eval S vars MVal) es.
+Proof. induction es; simpl; congruence. Qed.
+
+Lemma tsimple_silent vars e : tsimple e = true ->
+  rev (eval S vars MVal e) = [] /\ rlf (eval S vars MVal e) = [].
+Proof. destruct e; simpl; try discriminate; auto. Qed.
+
+Section CCallSel.
+Variable vars : nat -> val.
+Variable es : list expr.
+Let E (p : nat) : list event := rev (eval S vars MVal (nth p es ENone)).
+Let LF (p : nat) : list nat := rlf (eval S vars MVal (nth p es ENone)).
+Let nonts (p : nat) : bool := negb (tsimple (nth p es ENone)).
+
+Lemma sel_ev ps : flat_ev (evals S vars (select es ps)) = flat_map E ps.
+Proof. induction ps; simpl; auto. unfold flat_ev in *. simpl. rewrite IHps. reflexivity. Qed.
+
+Lemma sel_lf ps : flat_lf (evals S vars (select es ps)) = flat_map LF ps.
+Proof. induction ps; simpl; auto. unfold flat_lf in *. simpl. rewrite IHps. reflexivity. Qed.
+
+Lemma sel_rv ps : map rv (evals S vars (select es ps)) = map (fun p => rv (eval S vars MVal (nth p es ENone))) ps.
+Proof. induction ps; simpl; auto. f_equal. auto. Qed.
+
+Lemma flat_E_filter ps : flat_map E ps = flat_map E (filter nonts ps).
+Proof.
+  induction ps as [|p ps IH]; simpl; auto. unfold nonts at 1.
+  destruct (tsimple (nth p es ENone)) eqn:T; simpl; [|congruence].
+  unfold E at 1. destruct (tsimple_silent vars _ T) as [-> _]. exact IH.
+Qed.
+
+Lemma flat_LF_filter ps : flat_map LF ps = flat_map LF (filter nonts ps).
+Proof.
+  induction ps as [|p ps IH]; simpl; auto. unfold nonts at 1.
+  destruct (tsimple (nth p es ENone)) eqn:T; simpl; [|congruence].
+  unfold LF at 1. destruct (tsimple_silent vars _ T) as [_ ->]. exact IH.
+Qed.
+End CCallSel.
+
+Lemma seq_all_gen vars : forall es es0,
+  flat_map (fun p => rev (eval S vars MVal (nth p (es0 ++ es) ENone))) (seq (length es0) (length es))
+    = flat_ev (evals S vars es) /\
+  flat_map (fun p => rlf (eval S vars MVal (nth p (es0 ++ es) ENone))) (seq (length es0) (length es))
+    = flat_lf (evals S vars es).
+Proof.
+  induction es as [|x r IH]; intros es0; simpl; [auto|].
+  rewrite nth_middle. specialize (IH (es0 ++ [x])).
+  rewrite <- app_assoc, app_length in IH. simpl in IH. rewrite Nat.add_1_r in IH.
+  destruct IH as [A B]. unfold flat_ev, flat_lf in *. simpl. rewrite A, B. auto.
+Qed.
+
+Lemma seq_all vars es :
+  flat_map (fun p => rev (eval S vars MVal (nth p es ENone))) (seq 0 (length es)) = flat_ev (evals S vars es) /\
+  flat_map (fun p => rlf (eval S vars MVal (nth p es ENone))) (seq 0 (length es)) = flat_lf (evals S vars es).
+Proof. exact (seq_all_gen vars es []). Qed.
+
+Lemma nth_vals vars es q :
+  nth q (map rv (evals S vars es)) VNone = rv (eval S vars MVal (nth q es ENone)).
+Proof.
+  rewrite evals_map, map_map.
+  change VNone with ((fun e => rv (eval S vars MVal e)) ENone).
+  apply map_nth.
+Qed.
+
+Lemma lookup_val st (f : nat -> val) : forall ks ops,
+  map (getop st) ops = map f ks -> forall p, In p ks -> getop st (lookup p (combine ks ops)) = f p.
+Proof.
+  induction ks as [|k ks IH]; intros ops H p Hp; [destruct Hp|].
+  destruct ops as [|o ops]; [discriminate|]. simpl in H. injection H as H1 H2. simpl.
+  destruct (Nat.eqb_spec k p) as [->|Hn]; [exact H1|].
+  apply IH; auto. destruct Hp; [contradiction | auto].
+Qed.
+
+Lemma map_getop_ext n st st' e l rs :
+  ext n None st st' e l -> Forall (fun o => opok o n) rs -> map (getop st') rs = map (getop st) rs.
+Proof.
+  intros X. induction 1; simpl; auto. f_equal; auto. eapply getop_ext_none; eauto.
+Qed.
+
+Lemma filter_filter_impl {A} (f g : A -> bool) l :
+  (forall x, f x = true -> g x = true) -> filter f (filter g l) = filter f l.
+Proof.
+  intros H. induction l as [|x l IH]; simpl; auto.
+  destruct (g x) eqn:G; simpl; destruct (f x) eqn:Fx; auto; try congruence.
+  rewrite (H x Fx) in G. discriminate.
+Qed.
+
+(* the layout with the receiver first *)
+Definition cc_code1 (c : ctx) (o : op) (grecv : nat -> gres) (gfs : list (nat -> gres))
+    (temps args : list nat) (n : nat) : gres :=
+  let inplace := filter (fun p => negb (memb p temps)) args in
+  let '(c0, r0, n0) := grecv n in
+  let '(c1, trs, n1) := gen_sel gfs temps n0 in
+  let '(c2, irs, n2) := gen_sel gfs inplace n1 in
+  let env := combine (temps ++ inplace) (trs ++ irs) in
+  finish c (c0 ++ c1 ++ c2 ++ [IOp n2 o (r0 :: map (fun p => lookup p env) args)], OTemp n2, Datatypes.S n2).
+
+Definition raw_ccall (vars : nat -> val) (o : op) (recv : expr) (es : list expr) (slots : list nat) : res :=
+  let rr := eval S vars MVal recv in
+  let rs := evals S vars es in
+  let p := opsem S o (rv rr :: map (fun q => nth q (map rv rs) VNone) slots) in
+  {| rv := fst p; rk := None; rev := rev rr ++ flat_ev rs ++ snd p; rlf := rlf rr ++ flat_lf rs |}.
+
+Lemma cc_code1_ok c o recv es temps slots n :
+  wfctx c n -> gen_ok_at recv -> Forall gen_ok_at es ->
+  filter (fun p => negb (tsimple (nth p es ENone))) (cc_order temps slots)
+    = filter (fun p => negb (tsimple (nth p es ENone))) (seq 0 (length es)) ->
+  (forall p, In p slots -> In p (cc_order temps slots)) ->
+  specR c (fun vars => tobool S (mode_of c) (raw_ccall vars o recv es slots)) n
+        (cc_code1 c o (gen F CVal recv) (map (gen F CVal) es) temps slots n).
+Proof.
+  intros W Hrecv Hes Hord Hin. unfold cc_code1.
+  set (inplace := filter (fun p => negb (memb p temps)) slots) in *.
+  assert (Eord : cc_order temps slots = temps ++ inplace) by reflexivity. rewrite Eord in Hord, Hin.
+  pose proof (Hrecv CVal n I) as H0. destruct (gen F CVal recv n) as [[c0 r0] n0].
+  destruct H0 as (A0 & L0 & O0 & Q0 & _ & R0).
+  rewrite gen_sel_gens.
+  pose proof (gens_ok (select es temps) (select_ok es temps Hes) n0) as H1.
+  destruct (gens F (select es temps) n0) as [[c1 trs] n1]. destruct H1 as (A1 & L1 & O1 & Q1 & R1).
+  rewrite gen_sel_gens.
+  pose proof (gens_ok (select es inplace) (select_ok es inplace Hes) n1) as H2.
+  destruct (gens F (select es inplace) n1) as [[c2 irs] n2]. destruct H2 as (A2 & L2 & O2 & Q2 & R2).
+  apply (finish_ok c (fun vars => raw_ccall vars o recv es slots)); auto.
+  split; [lia|]. split.
+  { repeat apply lab_in_app; try (eapply lab_in_weak; eauto; lia); apply lab_in_nil; reflexivity. }
+  split; [simpl; lia|]. split; [simpl; lia|].
+  intros st. destruct (R0 st) as (st0 & B0 & C0 & D0). simpl in D0.
+  assert (V0 : mvars st0 = mvars st) by apply C0.
+  destruct (R1 st0) as (st1 & B1 & C1 & D1). rewrite V0 in C1, D1. simpl in C1, D1.
+  assert (V1 : mvars st1 = mvars st) by (destruct C1 as (X & _); congruence).
+  destruct (R2 st1) as (st2 & B2 & C2 & D2). rewrite V1 in C2, D2. simpl in C2, D2.
+  set (vars := mvars st) in *.
+  set (f := fun p => rv (eval S vars MVal (nth p es ENone))).
+  (* operand values at the call *)
+  assert (G0 : getop st2 r0 = rv (eval S vars MVal recv)).
+  { rewrite <- D0. transitivity (getop st1 r0).
+    - eapply getop_ext_none; [exact C2 | eapply opok_weak; eauto].
+    - eapply getop_ext_none; [exact C1 | auto]. }
+  assert (G1 : map (getop st2) (trs ++ irs) = map f (temps ++ inplace)).
+  { rewrite !map_app. f_equal.
+    - rewrite (map_getop_ext _ _ _ _ _ _ C2 O1), D1. apply sel_rv.
+    - rewrite D2. apply sel_rv. }
+  assert (G2 : map (getop st2) (map (fun p => lookup p (combine (temps ++ inplace) (trs ++ irs))) slots)
+               = map (fun q => nth q (map rv (evals S vars es)) VNone) slots).
+  { rewrite map_map. apply map_ext_in. intros q Hq. rewrite nth_vals.
+    apply (lookup_val st2 f); auto. }
+  (* events and leaves *)
+  destruct (seq_all vars es) as [SA SL].
+  assert (EV : flat_ev (evals S vars (select es temps)) ++ flat_ev (evals S vars (select es inplace))
+               = flat_ev (evals S vars es)).
+  { rewrite !sel_ev, <- flat_map_app, (flat_E_filter vars es), Hord, <- (flat_E_filter vars es). exact SA. }
+  assert (LV : flat_lf (evals S vars (select es temps)) ++ flat_lf (evals S vars (select es inplace))
+               = flat_lf (evals S vars es)).
+  { rewrite !sel_lf, <- flat_map_app, (flat_LF_filter vars es), Hord, <- (flat_LF_filter vars es). exact SL. }
+  rewrite run_app, B0, run_app, B1, run_app, B2. simpl.
+  rewrite G0, G2. unfold raw_ccall. cbv zeta. fold vars.
+  destruct (opsem S o (rv (eval S vars MVal recv) :: map (fun q => nth q (map rv (evals S vars es)) VNone) slots))
+    as [v ev] eqn:EO. simpl.
+  eexists. split; [reflexivity|]. split.
+  - pose proof (ext_trans _ _ _ _ _ _ _ _ _ _ C0 C1 A0) as X1.
+    pose proof (ext_trans _ _ _ _ _ _ _ _ _ _ X1 C2 ltac:(lia)) as X2.
+    pose proof (ext_step _ _ _ _ _ _ _ _ _ X2 (ext_set n2 None st2 n2 v ev (or_introl (le_n n2))) ltac:(lia)) as X3.
+    rewrite <- !app_assoc in X3. rewrite <- EV, <- LV, <- !app_assoc. exact X3.
+  - split; [|reflexivity]. simpl. unfold upd. rewrite Nat.eqb_refl. reflexivity.
+Qed.
+
+(* the layout of the tree as it is (temps, receiver, arguments left in place) is the same code when the
+   receiver is a name or there are no temps *)
+Lemma cc_layout c o recv gfs temps args n :
+  fx_ccrecv F = true \/ tsimple recv = true \/ temps = [] ->
+  (let inplace := filter (fun p => negb (memb p temps)) args in
+   if fx_ccrecv F then
+     let '(c0, r0, n0) := gen F CVal recv n in
+     let '(c1, trs, n1) := gen_sel gfs temps n0 in
+     let '(c2, irs, n2) := gen_sel gfs inplace n1 in
+     let env := combine (temps ++ inplace) (trs ++ irs) in
+     finish c (c0 ++ c1 ++ c2 ++ [IOp n2 o (r0 :: map (fun p => lookup p env) args)], OTemp n2, Datatypes.S n2)
+   else
+     let '(c1, trs, n1) := gen_sel gfs temps n in
+     let '(c0, r0, n0) := gen F CVal recv n1 in
+     let '(c2, irs, n2) := gen_sel gfs inplace n0 in
+     let env := combine (temps ++ inplace) (trs ++ irs) in
+     finish c (c1 ++ c0 ++ c2 ++ [IOp n2 o (r0 :: map (fun p => lookup p env) args)], OTemp n2, Datatypes.S n2))
+  = cc_code1 c o (gen F CVal recv) gfs temps args n.
+Proof.
+  intros H. unfold cc_code1. cbv zeta. destruct (fx_ccrecv F); [reflexivity|].
+  destruct H as [H|[H|H]]; [discriminate| |].
+  - destruct recv; try discriminate; simpl;
+      destruct (gen_sel gfs temps n) as [[c1 trs] n1];
+      destruct (gen_sel gfs _ n1) as [[c2 irs] n2]; rewrite ?app_nil_r; reflexivity.
+  - subst temps. simpl. destruct (gen F CVal recv n) as [[c0 r0] n0].
+    destruct (gen_sel gfs _ n0) as [[c2 irs] n2]. reflexivity.
+Qed.
+
+Lemma forallb_seq (f : nat -> bool) a n : forallb f (seq a n) = true -> forall p, a <= p < a + n -> f p = true.
+Proof. intros H p Hp. rewrite forallb_forall in H. apply H. apply in_seq. auto. Qed.
+
+Lemma gen_ccall o nreq ndecl recv npos names es :
+  ccok F nreq ndecl recv npos names es = true ->
+  gen_ok_at recv -> Forall gen_ok_at es -> gen_ok_at (ECCall o nreq ndecl recv npos names es).
+Proof.
+  intros Hok Hrecv Hes c n W.
+  unfold ccok in Hok. cbv zeta in Hok.
+  repeat (apply andb_true_iff in Hok; let X := fresh "K" in destruct Hok as [Hok X]).
+  rename K into Krecv, K0 into Ksimple, K1 into Kkeep, K2 into Kreq, K3 into Ksort, K4 into Kwf.
+  apply Nat.eqb_eq in Hok. apply Nat.leb_le in Kreq.
+  set (m := npos + length names) in *. set (k := npos + inorder_prefix ndecl npos names) in *.
+  set (simple := fun p => csimple F (nth p es ENone)) in *.
+  set (ts := fun p => tsimple (nth p es ENone)).
+  set (slots := ref_slots npos names ndecl 0).
+  (* the mapping *)
+  assert (M : exists temps,
+             ccmap (cc_sorted F) (fx_cckeep F) npos ndecl names simple = CMOk temps slots /\
+             filter (nonsimple ts) (cc_order temps slots) = filter (nonsimple ts) (seq 0 m) /\
+             (forall p, In p slots -> In p (cc_order temps slots)) /\ length slots = m).
+  { rewrite Ksort. apply orb_true_iff in Ksimple. destruct Ksimple as [Ks|Ks].
+    - assert (Hc : fx_cckeep F = true \/ (forall p, p < k -> simple p = true) \/
+                   (forall p, k <= p < m -> simple p = true)).
+      { apply orb_true_iff in Kkeep. destruct Kkeep as [Kk|Kk]; [|right; right; intros p Hp; apply (forallb_seq _ _ _ Kk); lia].
+        apply orb_true_iff in Kk. destruct Kk as [Kk|Kk]; [left; auto|].
+        right; left; intros p Hp; apply (forallb_seq _ _ _ Kk); lia. }
+      destruct (ccmap_ok (fx_cckeep F) npos ndecl names simple Kwf Hc) as (temps & E1 & E2 & _ & E4 & E5 & E6).
+      fold slots in E1, E2, E4, E5, E6.
+      exists temps. split; [exact E1|]. split; [|split; [|exact E6]].
+      + assert (Imp : forall p, nonsimple ts p = true -> nonsimple simple p = true).
+        { intros p. unfold nonsimple, ts, simple. rewrite !negb_true_iff. intros T.
+          destruct (csimple F (nth p es ENone)) eqn:Cs; auto.
+          destruct (Nat.lt_ge_cases p (length es)) as [L|L].
+          - rewrite forallb_forall in Ks. specialize (Ks _ (nth_In es ENone L)). rewrite Cs, T in Ks. discriminate.
+          - rewrite nth_overflow in T by auto. discriminate. }
+        rewrite <- (filter_filter_impl _ _ (cc_order temps slots) Imp), E2. apply filter_filter_impl. exact Imp.
+      + intros p Hp. apply E4. apply E5. exact Hp.
+    - apply Nat.leb_le in Ks. rewrite (ccmap_inorder _ _ _ _ _ simple ts Ks).
+      assert (Hc : fx_cckeep F = true \/ (forall p, p < k -> ts p = true) \/ (forall p, k <= p < m -> ts p = true)).
+      { right; right. intros p Hp. pose proof (pre_le npos ndecl names). unfold k, m in Hp. lia. }
+      destruct (ccmap_ok (fx_cckeep F) npos ndecl names ts Kwf Hc) as (temps & E1 & E2 & _ & E4 & E5 & E6).
+      fold slots in E1, E2, E4, E5, E6.
+      exists temps. split; [exact E1|]. split; [exact E2|]. split; [|exact E6].
+      intros p Hp. apply E4. apply E5. exact Hp. }
+  destruct M as (temps & M1 & M2 & M3 & M4).
+  eapply specR_ext with (R := fun vars => tobool S (mode_of c) (raw_ccall vars o recv es slots)).
+  { intros vars. rewrite eval_ECCall. unfold raw_ccall. cbv zeta. fold slots. destruct (opsem S o _). reflexivity. }
+  rewrite gen_ECCall. unfold ccall_code. fold simple. rewrite M1.
+  assert (Lr : Nat.ltb (length slots) nreq = false) by (apply Nat.ltb_ge; lia). rewrite Lr.
+  rewrite cc_layout.
+  - apply cc_code1_ok; auto. rewrite Hok. exact M2.
+  - apply orb_true_iff in Krecv. destruct Krecv as [Kr|Kr].
+    + apply orb_true_iff in Kr. destruct Kr; auto.
+    + right; right. fold simple in Kr. rewrite M1 in Kr. destruct temps; [reflexivity | discriminate].
+Qed.
+
 (* ---------- all expressions ---------- *)
 Section ExprInd.
 Variable P : expr -> Prop.
@@ -1302,6 +1587,8 @@ Hypothesis HCond : forall c a b, P c -> P a -> P b -> P (ECond c a b).
 Hypothesis HCmp : forall a ops rest, P a -> Forall P rest -> P (ECmp a ops rest).
 Hypothesis HMCall : forall m o obj args, P obj -> Forall P args -> P (EMCall m o obj args).
 Hypothesis HMinMax : forall o args, Forall P args -> P (EMinMax o args).
+Hypothesis HCCall : forall o nreq ndecl recv npos names es, P recv -> Forall P es ->
+  P (ECCall o nreq ndecl recv npos names es).
 
 Fixpoint expr_ind' (e : expr) : P e :=
   let go := fix go (l : list expr) : Forall P l :=
@@ -1318,6 +1605,7 @@ Fixpoint expr_ind' (e : expr) : P e :=
   | ECmp a ops rest => HCmp a ops rest (expr_ind' a) (go rest)
   | EMCall m o obj args => HMCall m o obj args (expr_ind' obj) (go args)
   | EMinMax o args => HMinMax o args (go args)
+  | ECCall o nreq ndecl recv npos names es => HCCall o nreq ndecl recv npos names es (expr_ind' recv) (go es)
   end.
 End ExprInd.
 
@@ -1332,6 +1620,8 @@ Fixpoint eok (e : expr) : bool :=
   | ECmp a _ rest => eok a && forallb eok rest
   | EMCall _ _ obj args => fx_mcall F && eok obj && forallb eok args
   | EMinMax _ args => fx_minmax F && forallb eok args
+  | ECCall _ nreq ndecl recv npos names es =>
+      eok recv && forallb eok es && ccok F nreq ndecl recv npos names es
   end.
 
 Lemma forall_ok es : Forall (fun e => eok e = true -> gen_ok_at e) es -> forallb eok es = true -> Forall gen_ok_at es.
@@ -1343,7 +1633,8 @@ Qed.
 Theorem gen_correct : forall e, eok e = true -> gen_ok_at e.
 Proof.
   intros e. induction e as [kind k|x| |o es IHes|a IHa|a b IHa IHb|a b IHa IHb|c a b IHc IHa IHb
-                           |a ops rest IHa IHrest|m o obj args IHobj IHargs|o args IHargs] using expr_ind';
+                           |a ops rest IHa IHrest|m o obj args IHobj IHargs|o args IHargs
+                           |o nreq ndecl recv npos names es IHrecv IHes] using expr_ind';
     simpl; intros Hok.
   - apply gen_leaf.
   - apply gen_name.
@@ -1357,6 +1648,8 @@ Proof.
   - apply andb_true_iff in Hok. destruct Hok as [Hok H3]. apply andb_true_iff in Hok. destruct Hok.
     apply gen_mcall; auto. apply forall_ok; auto.
   - apply andb_true_iff in Hok. destruct Hok. apply gen_minmax; auto. apply forall_ok; auto.
+  - apply andb_true_iff in Hok. destruct Hok as [Hok H3]. apply andb_true_iff in Hok. destruct Hok.
+    apply gen_ccall; auto. apply forall_ok; auto.
 Qed.
 
 (* the statement for a whole expression evaluated for its value *)
